@@ -88,6 +88,26 @@ def machine(d, by_name):
     return L
 
 
+def enum_machine(d):
+    name = d['name']
+    n = d['bits']
+    L = ['struct EM_%s;' % name, 'impl EnumMachine for EM_%s {' % name, '    fn conv(&self, x: u128) -> String {']
+    raw = u128_to_raw_ty(n, 'x')
+    if d.get('exh') == 'true':
+        L.append('        format!("ok:{:?}", %s::new_with_raw_value(%s))' % (name, raw))
+    else:
+        L.append('        match %s::new_with_raw_value(%s) { Ok(v) => format!("ok:{:?}", v), Err(b) => format!("err:{:x}", b as u128) }' % (name, raw))
+    L += ['    }', '    fn raws(&self) -> String {', '        let mut s: Vec<String> = Vec::new();']
+    for v in d['variants']:
+        if v.get('cfg') == 'all':
+            L.append('        #[cfg(all())]')
+        elif v.get('cfg') == 'any':
+            L.append('        #[cfg(any())]')
+        L.append('        s.push(format!("%s={:x}", %s));' % (v['name'], raw_ty_to_u128(n, '%s::%s.raw_value()' % (name, v['name']))))
+    L += ['        s.join(",")', '    }', '}']
+    return L
+
+
 RUNNER_HEAD = '''#![allow(warnings)]
 use corpus::*;
 use std::io::{BufRead, Write};
@@ -100,6 +120,10 @@ trait Machine {
     fn with(&mut self, f: usize, i: usize, v: u128);
     fn set(&mut self, f: usize, i: usize, v: u128);
 }
+trait EnumMachine {
+    fn conv(&self, x: u128) -> String;
+    fn raws(&self) -> String;
+}
 '''
 
 RUNNER_MAIN = '''
@@ -110,12 +134,18 @@ fn main() {
     let stdin = std::io::stdin();
     let mut out = std::io::BufWriter::new(std::io::stdout());
     let mut m: Option<Box<dyn Machine>> = None;
+    let mut em: Option<Box<dyn EnumMachine>> = None;
     for line in stdin.lock().lines() {
         let line = line.unwrap();
         let mut it = line.split_whitespace();
         let cmd = match it.next() { Some(c) => c, None => continue };
         match cmd {
             "D" => { m = make(it.next().unwrap()); writeln!(out, "D").unwrap(); }
+            "E" => { em = make_enum(it.next().unwrap()); writeln!(out, "E").unwrap(); }
+            "X" => { let x = hex(it.next().unwrap()); let e = em.as_ref().unwrap();
+                     match panic::catch_unwind(AssertUnwindSafe(|| e.conv(x))) { Ok(s) => writeln!(out, "{}", s).unwrap(), Err(_) => writeln!(out, "P").unwrap() } }
+            "V" => { let e = em.as_ref().unwrap();
+                     match panic::catch_unwind(AssertUnwindSafe(|| e.raws())) { Ok(s) => writeln!(out, "{}", s).unwrap(), Err(_) => writeln!(out, "P").unwrap() } }
             "N" => { let r0 = hex(it.next().unwrap()); m.as_mut().unwrap().reset(r0); writeln!(out, "N").unwrap(); }
             "R" => { let mm = m.as_ref().unwrap();
                      match panic::catch_unwind(AssertUnwindSafe(|| mm.raw())) { Ok(x) => writeln!(out, "{:x}", x).unwrap(), Err(_) => writeln!(out, "P").unwrap() } }
@@ -141,8 +171,17 @@ fn main() {
 '''
 
 
-def runner_source(ds, by_name):
+def runner_source(ds, by_name, enums=()):
     L = [RUNNER_HEAD]
+    for d in enums:
+        L += enum_machine(d)
+    L.append('fn make_enum(name: &str) -> Option<Box<dyn EnumMachine>> {')
+    L.append('    match name {')
+    for d in enums:
+        L.append('        "%s" => Some(Box::new(EM_%s)),' % (d['name'], d['name']))
+    L.append('        _ => None,')
+    L.append('    }')
+    L.append('}')
     for d in ds:
         L += machine(d, by_name)
     L.append('fn make(name: &str) -> Option<Box<dyn Machine>> {')
